@@ -2,16 +2,20 @@
 # tools/seed_matrix.sh [Cxx ...]: run every confirmed seeded change against the check of its property.
 # Writes seeded/RESULTS.tsv  (seed, property, exit code, first VIOLATION line)
 cd /verif
+# works on a scratch worktree (so that /repo stays untouched while other checks run); removed at the end
+WT=${VERIF_SCRATCH:-/var/tmp}/wt-seed-$$
+git -C /repo worktree add -q --detach $WT HEAD
+trap 'git -C /repo worktree remove --force $WT' EXIT
 OUT=seeded/RESULTS.tsv
 : > $OUT.tmp
 for d in seeded/C*-*; do
   s=$(basename $d); p=${s%-*}
   if [ $# -gt 0 ]; then case " $* " in *" $p "*) ;; *) continue;; esac; fi
   grep -q "\"property_id\": \"$p\"" MANIFEST.json || { echo -e "$s\t$p\tunclaimed\t" >> $OUT.tmp; continue; }
-  if ! git -C /repo apply --check $d/patch.diff 2>/dev/null; then echo -e "$s\t$p\tpatch-does-not-apply\t" >> $OUT.tmp; continue; fi
-  git -C /repo apply $d/patch.diff
-  ./check $p --tier quick > /tmp/seedrun_$s.out 2>&1; rc=$?
-  git -C /repo checkout -- .
+  if ! git -C $WT apply --check /verif/$d/patch.diff 2>/dev/null; then echo -e "$s\t$p\tpatch-does-not-apply\t" >> $OUT.tmp; continue; fi
+  git -C $WT apply /verif/$d/patch.diff
+  VERIF_REPO=$WT ./check $p --tier quick > /tmp/seedrun_$s.out 2>&1; rc=$?
+  git -C $WT checkout -- .
   v=$(grep -m1 VIOLATION /tmp/seedrun_$s.out | cut -c1-220)
   echo -e "$s\t$p\t$rc\t$v" | tee -a $OUT.tmp
 done
